@@ -48,7 +48,8 @@ inductive Err (toks : List Token) where
   | expected (st : PState toks)     -- `report_expected` in state `st`
   | fault (f : Fault)
 
-abbrev Res (toks : List Token) (α : Type) := Except (Err toks) (α × PState toks)
+/-- `Res% toks α`: result of a parsing function = value and next state, or an error. -/
+macro "Res% " t:term:max a:term:max : term => `(Except (Err $t) ($a × PState $t))
 
 variable {toks : List Token}
 
@@ -76,27 +77,27 @@ def reportExpected {α : Type} (st : PState toks) : Except (Err toks) α := .err
 def fault {α : Type} (f : Fault) : Except (Err toks) α := .error (.fault f)
 
 /-- `eat_eof` -/
-def eatEof (add : Bool) (st : PState toks) : Res toks Bool :=
+def eatEof (add : Bool) (st : PState toks) : Res% toks Bool :=
   if st.cur.kind = .eof then
     if st.rem.isEmpty then .ok (true, { st with expected := [] }) else fault .eofNotLast
   else .ok (false, st.pushIf add .eof)
 
 /-- `eat_simple` -/
-def eatSimple (k : STok) (add : Bool) (st : PState toks) : Res toks (Option Span) :=
+def eatSimple (k : STok) (add : Bool) (st : PState toks) : Res% toks (Option Span) :=
   if st.cur.kind = .simple k then do
     let st' ← st.advance
     pure (some st.cur.span, st')
   else .ok (none, st.pushIf add (.simple k))
 
 /-- `expect_simple` -/
-def expectSimple (k : STok) (add : Bool) (st : PState toks) : Res toks Span := do
+def expectSimple (k : STok) (add : Bool) (st : PState toks) : Res% toks Span := do
   let (r, st') ← eatSimple k add st
   match r with
   | some sp => pure (sp, st')
   | none => reportExpected st'
 
 /-- `eat_ident` -/
-def eatIdent (add : Bool) (st : PState toks) : Res toks (Option Ident) :=
+def eatIdent (add : Bool) (st : PState toks) : Res% toks (Option Ident) :=
   match st.cur.kind with
   | .ident v => do
     let st' ← st.advance
@@ -104,14 +105,14 @@ def eatIdent (add : Bool) (st : PState toks) : Res toks (Option Ident) :=
   | _ => .ok (none, st.pushIf add .ident)
 
 /-- `expect_ident` -/
-def expectIdent (add : Bool) (st : PState toks) : Res toks Ident := do
+def expectIdent (add : Bool) (st : PState toks) : Res% toks Ident := do
   let (r, st') ← eatIdent add st
   match r with
   | some i => pure (i, st')
   | none => reportExpected st'
 
 /-- `eat_number` -/
-def eatNumber (add : Bool) (st : PState toks) : Res toks (Option (String × Span)) :=
+def eatNumber (add : Bool) (st : PState toks) : Res% toks (Option (String × Span)) :=
   match st.cur.kind with
   | .number n => do
     let st' ← st.advance
@@ -119,7 +120,7 @@ def eatNumber (add : Bool) (st : PState toks) : Res toks (Option (String × Span
   | _ => .ok (none, st.pushIf add .number)
 
 /-- `eat_string` -/
-def eatString (add : Bool) (st : PState toks) : Res toks (Option (String × Span)) :=
+def eatString (add : Bool) (st : PState toks) : Res% toks (Option (String × Span)) :=
   match st.cur.kind with
   | .string s => do
     let st' ← st.advance
@@ -127,7 +128,7 @@ def eatString (add : Bool) (st : PState toks) : Res toks (Option (String × Span
   | _ => .ok (none, st.pushIf add .string)
 
 /-- `eat_text_block` -/
-def eatTextBlock (add : Bool) (st : PState toks) : Res toks (Option (String × Span)) :=
+def eatTextBlock (add : Bool) (st : PState toks) : Res% toks (Option (String × Span)) :=
   match st.cur.kind with
   | .textBlock s => do
     let st' ← st.advance
@@ -135,7 +136,7 @@ def eatTextBlock (add : Bool) (st : PState toks) : Res toks (Option (String × S
   | _ => .ok (none, st.pushIf add .textBlock)
 
 /-- Try the listed tokens in order (`if eat(..) {..} else if eat(..) {..} ...`). -/
-def eatFirst {α : Type} (add : Bool) : List (STok × α) → PState toks → Res toks (Option (STok × α × Span))
+def eatFirst {α : Type} (add : Bool) : List (STok × α) → PState toks → Res% toks (Option (STok × α × Span))
   | [], st => .ok (none, st)
   | (k, a) :: rest, st => do
     let (r, st') ← eatSimple k add st
@@ -144,13 +145,13 @@ def eatFirst {α : Type} (add : Bool) : List (STok × α) → PState toks → Re
     | none => eatFirst add rest st'
 
 /-- `eat_visibility` -/
-def eatVisibility (add : Bool) (st : PState toks) : Res toks (Option Visibility) := do
+def eatVisibility (add : Bool) (st : PState toks) : Res% toks (Option Visibility) := do
   let (r, st') ← eatFirst add
     [(.Colon, Visibility.Default), (.ColonColon, .Hidden), (.ColonColonColon, .ForceVisible)] st
   pure (r.map (·.2.1), st')
 
 /-- `eat_plus_visibility` -/
-def eatPlusVisibility (add : Bool) (st : PState toks) : Res toks (Option (Bool × Visibility)) := do
+def eatPlusVisibility (add : Bool) (st : PState toks) : Res% toks (Option (Bool × Visibility)) := do
   let (r, st') ← eatFirst add
     [(.Colon, (false, Visibility.Default)), (.ColonColon, (false, .Hidden)),
      (.ColonColonColon, (false, .ForceVisible)), (.PlusColon, (true, .Default)),
@@ -181,7 +182,7 @@ def peekIdent (i : Nat) (st : PState toks) : Bool :=
 
 /-! ## `parse_maybe_simple_expr` -/
 
-def parseMaybeSimpleExpr (st : PState toks) : Res toks (Option Expr) := do
+def parseMaybeSimpleExpr (st : PState toks) : Res% toks (Option Expr) := do
   let (r, st) ← eatSimple .Null false st
   if let some sp := r then return (some (.null sp), st)
   let (r, st) ← eatSimple .False_ false st
@@ -205,10 +206,10 @@ def parseMaybeSimpleExpr (st : PState toks) : Res toks (Option Expr) := do
 /-! ## Functions that call `parse_expr` (= `pe`) -/
 
 section WithPe
-variable (pe : PState toks → Res toks Expr)
+variable (pe : PState toks → Res% toks Expr)
 
 /-- `parse_params` (after the `(`): the loop -/
-def paramsLoop : Nat → List Param → PState toks → Res toks (List Param × Span)
+def paramsLoop : Nat → List Param → PState toks → Res% toks (List Param × Span)
   | 0, _, _ => fault .outOfFuel
   | fuel + 1, acc, st => do
     let (name, st) ← expectIdent true st
@@ -217,7 +218,7 @@ def paramsLoop : Nat → List Param → PState toks → Res toks (List Param × 
       | some _ => do
         let (d, st) ← pe st
         pure (some d, st)
-      | none => pure (none, st) : Res toks (Option Expr))
+      | none => pure (none, st) : Res% toks (Option Expr))
     let acc := acc ++ [Param.mk name dflt]
     let (r, st) ← eatSimple .RightParen true st
     match r with
@@ -233,14 +234,14 @@ def paramsLoop : Nat → List Param → PState toks → Res toks (List Param × 
       | none => reportExpected st
 
 /-- `parse_params` -/
-def parseParams (fuel : Nat) (st : PState toks) : Res toks (List Param × Span) := do
+def parseParams (fuel : Nat) (st : PState toks) : Res% toks (List Param × Span) := do
   let (r, st) ← eatSimple .RightParen true st
   match r with
   | some endSp => pure (([], endSp), st)
   | none => paramsLoop pe fuel [] st
 
 /-- `parse_arg` -/
-def parseArg (st : PState toks) : Res toks Arg :=
+def parseArg (st : PState toks) : Res% toks Arg :=
   if peekIdent 0 st && peekSimple .Eq 1 st then do
     let (name, st) ← eatIdent false st
     match name with
@@ -256,7 +257,7 @@ def parseArg (st : PState toks) : Res toks Arg :=
     let (v, st) ← pe st
     pure (.positional v, st)
 
-def argsLoop : Nat → List Arg → PState toks → Res toks (List Arg × Span)
+def argsLoop : Nat → List Arg → PState toks → Res% toks (List Arg × Span)
   | 0, _, _ => fault .outOfFuel
   | fuel + 1, acc, st => do
     let (a, st) ← parseArg pe st
@@ -275,14 +276,14 @@ def argsLoop : Nat → List Arg → PState toks → Res toks (List Arg × Span)
       | none => reportExpected st
 
 /-- `parse_args` -/
-def parseArgs (fuel : Nat) (st : PState toks) : Res toks (List Arg × Span) := do
+def parseArgs (fuel : Nat) (st : PState toks) : Res% toks (List Arg × Span) := do
   let (r, st) ← eatSimple .RightParen true st
   match r with
   | some endSp => pure (([], endSp), st)
   | none => argsLoop pe fuel [] st
 
 /-- `maybe_parse_assert` -/
-def maybeParseAssert (add : Bool) (st : PState toks) : Res toks (Option (Span × Assert)) := do
+def maybeParseAssert (add : Bool) (st : PState toks) : Res% toks (Option (Span × Assert)) := do
   let (r, st) ← eatSimple .Assert add st
   match r with
   | none => pure (none, st)
@@ -296,7 +297,7 @@ def maybeParseAssert (add : Bool) (st : PState toks) : Res toks (Option (Span ×
     | none => pure (some (startSp, .mk (surround startSp cond.span) cond none), st)
 
 /-- `parse_bind` -/
-def parseBind (fuel : Nat) (st : PState toks) : Res toks Bind := do
+def parseBind (fuel : Nat) (st : PState toks) : Res% toks Bind := do
   let (name, st) ← expectIdent true st
   let (lp, st) ← eatSimple .LeftParen true st
   match lp with
@@ -311,7 +312,7 @@ def parseBind (fuel : Nat) (st : PState toks) : Res toks Bind := do
     pure (.mk name false [] Span.zero v, st)
 
 /-- `maybe_parse_obj_local` -/
-def maybeParseObjLocal (fuel : Nat) (st : PState toks) : Res toks (Option Bind) := do
+def maybeParseObjLocal (fuel : Nat) (st : PState toks) : Res% toks (Option Bind) := do
   let (r, st) ← eatSimple .Local true st
   match r with
   | some _ =>
@@ -320,7 +321,7 @@ def maybeParseObjLocal (fuel : Nat) (st : PState toks) : Res toks (Option Bind) 
   | none => pure (none, st)
 
 /-- `maybe_parse_for_spec` -/
-def maybeParseForSpec (st : PState toks) : Res toks (Option CompSpec) := do
+def maybeParseForSpec (st : PState toks) : Res% toks (Option CompSpec) := do
   let (r, st) ← eatSimple .For true st
   match r with
   | some _ =>
@@ -331,7 +332,7 @@ def maybeParseForSpec (st : PState toks) : Res toks (Option CompSpec) := do
   | none => pure (none, st)
 
 /-- `maybe_parse_if_spec` -/
-def maybeParseIfSpec (st : PState toks) : Res toks (Option CompSpec) := do
+def maybeParseIfSpec (st : PState toks) : Res% toks (Option CompSpec) := do
   let (r, st) ← eatSimple .If true st
   match r with
   | some _ =>
@@ -339,7 +340,7 @@ def maybeParseIfSpec (st : PState toks) : Res toks (Option CompSpec) := do
     pure (some (.if_ c), st)
   | none => pure (none, st)
 
-def compSpecLoop : Nat → List CompSpec → PState toks → Res toks (List CompSpec)
+def compSpecLoop : Nat → List CompSpec → PState toks → Res% toks (List CompSpec)
   | 0, _, _ => fault .outOfFuel
   | fuel + 1, acc, st => do
     let (f, st) ← maybeParseForSpec pe st
@@ -352,7 +353,7 @@ def compSpecLoop : Nat → List CompSpec → PState toks → Res toks (List Comp
       | none => pure (acc, st)
 
 /-- `maybe_parse_comp_spec` -/
-def maybeParseCompSpec (fuel : Nat) (st : PState toks) : Res toks (Option (List CompSpec)) := do
+def maybeParseCompSpec (fuel : Nat) (st : PState toks) : Res% toks (Option (List CompSpec)) := do
   let (f, st) ← maybeParseForSpec pe st
   match f with
   | some s =>
@@ -361,7 +362,7 @@ def maybeParseCompSpec (fuel : Nat) (st : PState toks) : Res toks (Option (List 
   | none => pure (none, st)
 
 /-- `maybe_parse_field_name` -/
-def maybeParseFieldName (st : PState toks) : Res toks (Option FieldName) := do
+def maybeParseFieldName (st : PState toks) : Res% toks (Option FieldName) := do
   let (r, st) ← eatIdent true st
   if let some i := r then return (some (.ident i), st)
   let (r, st) ← eatString true st
@@ -377,7 +378,7 @@ def maybeParseFieldName (st : PState toks) : Res toks (Option FieldName) := do
   | none => pure (none, st)
 
 /-- `maybe_parse_field` -/
-def maybeParseField (fuel : Nat) (st : PState toks) : Res toks (Option Field) := do
+def maybeParseField (fuel : Nat) (st : PState toks) : Res% toks (Option Field) := do
   let (n, st) ← maybeParseFieldName pe st
   match n with
   | none => pure (none, st)
@@ -419,7 +420,7 @@ def makeComp (members : List Member) (spec : List CompSpec) : Except Fault ObjIn
   | .ok (_, none, _) => .error .unreachable
   | .error f => .error f
 
-def liftFault {α : Type} (r : Except Fault α) (st : PState toks) : Res toks α :=
+def liftFault {α : Type} (r : Except Fault α) (st : PState toks) : Res% toks α :=
   match r with
   | .ok a => .ok (a, st)
   | .error f => .error (.fault f)
@@ -431,7 +432,7 @@ def fieldFlags (f : Field) (canBeComp hasDyn : Bool) : Bool × Bool :=
   | _ => (false, hasDyn)
 
 /-- the `loop` of `parse_obj_inside` -/
-def objLoop : Nat → List Member → Bool → Bool → PState toks → Res toks (ObjInside × Span)
+def objLoop : Nat → List Member → Bool → Bool → PState toks → Res% toks (ObjInside × Span)
   | 0, _, _, _, _ => fault .outOfFuel
   | fuel + 1, members, canBeComp, hasDyn, st => do
     let (ol, st) ← maybeParseObjLocal pe fuel st
@@ -448,7 +449,7 @@ def objLoop : Nat → List Member → Bool → Bool → PState toks → Res toks
           match a with
           | some (_, a) => pure ((members ++ [.assert_ a], false, hasDyn), st)
           | none => reportExpected st
-      : Res toks (List Member × Bool × Bool))
+      : Res% toks (List Member × Bool × Bool))
     let (rb, st) ← eatSimple .RightBrace true st
     match rb with
     | some endSp => pure ((.members members, endSp), st)
@@ -481,7 +482,7 @@ def objLoop : Nat → List Member → Bool → Bool → PState toks → Res toks
         else reportExpected st
 
 /-- `parse_obj_inside` (after the `{`) -/
-def parseObjInside (fuel : Nat) (st : PState toks) : Res toks (ObjInside × Span) := do
+def parseObjInside (fuel : Nat) (st : PState toks) : Res% toks (ObjInside × Span) := do
   let (rb, st) ← eatSimple .RightBrace true st
   match rb with
   | some endSp => pure ((.members [], endSp), st)
@@ -489,7 +490,7 @@ def parseObjInside (fuel : Nat) (st : PState toks) : Res toks (ObjInside × Span
 
 /-- the tail of a slice after `[ e1? : e2? ` has been read and a further `:` was eaten:
     `]` or `e3 ]` -/
-def sliceLast (st : PState toks) : Res toks (Option Expr × Span) := do
+def sliceLast (st : PState toks) : Res% toks (Option Expr × Span) := do
   let (rb, st) ← eatSimple .RightBracket true st
   match rb with
   | some endSp => pure ((none, endSp), st)
@@ -499,7 +500,7 @@ def sliceLast (st : PState toks) : Res toks (Option Expr × Span) := do
     pure ((some i3, endSp), st)
 
 /-- after `[ e1? :` : the sub-tree `] | : (] | e3 ]) | e2 (] | : (] | e3 ]))` -/
-def sliceAfterColon (st : PState toks) : Res toks (Option Expr × Option Expr × Span) := do
+def sliceAfterColon (st : PState toks) : Res% toks (Option Expr × Option Expr × Span) := do
   let (rb, st) ← eatSimple .RightBracket true st
   match rb with
   | some endSp => pure ((none, none, endSp), st)
@@ -523,7 +524,7 @@ def sliceAfterColon (st : PState toks) : Res toks (Option Expr × Option Expr ×
         | none => reportExpected st
 
 /-- `parse_index_expr` (after the `[`) -/
-def parseIndexExpr (lhs : Expr) (st : PState toks) : Res toks Expr := do
+def parseIndexExpr (lhs : Expr) (st : PState toks) : Res% toks Expr := do
   let (c, st) ← eatSimple .Colon true st
   match c with
   | some _ =>
@@ -555,7 +556,7 @@ def parseIndexExpr (lhs : Expr) (st : PState toks) : Res toks Expr := do
           | none => reportExpected st
 
 /-- `parse_suffix_expr` -/
-def parseSuffixExpr : Nat → Expr → PState toks → Res toks Expr
+def parseSuffixExpr : Nat → Expr → PState toks → Res% toks Expr
   | 0, _, _ => fault .outOfFuel
   | fuel + 1, lhs, st => do
     let (dot, st) ← eatSimple .Dot true st
@@ -576,7 +577,7 @@ def parseSuffixExpr : Nat → Expr → PState toks → Res toks Expr
           let (rp, st) ← eatSimple .RightParen true st
           let ((args, endSp), st) ← (match rp with
             | some endSp => pure (([], endSp), st)
-            | none => parseArgs pe fuel st : Res toks (List Arg × Span))
+            | none => parseArgs pe fuel st : Res% toks (List Arg × Span))
           let (ts, st) ← eatSimple .Tailstrict true st
           parseSuffixExpr fuel
             (.call lhs args ts.isSome (surround lhs.span (ts.getD endSp))) st
@@ -590,7 +591,7 @@ def parseSuffixExpr : Nat → Expr → PState toks → Res toks Expr
           | none => pure (lhs, st)
 
 /-- `while eat(Comma) { binds.push(parse_bind()) }` of the `local` expression -/
-def bindsLoop : Nat → List Bind → PState toks → Res toks (List Bind)
+def bindsLoop : Nat → List Bind → PState toks → Res% toks (List Bind)
   | 0, _, _ => fault .outOfFuel
   | fuel + 1, acc, st => do
     let (c, st) ← eatSimple .Comma true st
@@ -629,7 +630,7 @@ def initState : State := .binary initKind
 /-- `State::Primary`, all alternatives that finish inside this step: result is the next
     `(stack, state)` -/
 def primaryStep (fuel : Nat) (stack : List StackItem) (st : PState toks) :
-    Res toks (List StackItem × State) := do
+    Res% toks (List StackItem × State) := do
   let (se, st) ← parseMaybeSimpleExpr st
   if let some e := se then return ((stack, .parsed e), st)
   let (r, st) ← eatSimple .LeftBrace false st
@@ -710,7 +711,7 @@ def primaryStep (fuel : Nat) (stack : List StackItem) (st : PState toks) :
 
 /-- `State::BinaryRhs(kind, lhs)` -/
 def binaryRhsStep (k : BinKind) (lhs : Expr) (stack : List StackItem) (st : PState toks) :
-    Res toks (List StackItem × State) := do
+    Res% toks (List StackItem × State) := do
   let (r, st) ← eatFirst false k.ops st
   match r with
   | some (tok, op, _) =>
@@ -725,7 +726,7 @@ def binaryRhsStep (k : BinKind) (lhs : Expr) (stack : List StackItem) (st : PSta
   | none => pure ((stack, .parsed lhs), st.push .binaryOp)
 
 /-- `State::Unary` -/
-def unaryStep (stack : List StackItem) (st : PState toks) : Res toks (List StackItem × State) := do
+def unaryStep (stack : List StackItem) (st : PState toks) : Res% toks (List StackItem × State) := do
   let (r, st) ← eatFirst false unaryOps st
   match r with
   | some (_, op, opSp) => pure ((.unary op opSp :: stack, .unary), st)
@@ -733,7 +734,7 @@ def unaryStep (stack : List StackItem) (st : PState toks) : Res toks (List Stack
 
 /-- `State::Parsed(expr)` with a non-empty stack -/
 def parsedStep (fuel : Nat) (expr : Expr) (item : StackItem) (stack : List StackItem)
-    (st : PState toks) : Res toks (List StackItem × State) :=
+    (st : PState toks) : Res% toks (List StackItem × State) :=
   match item with
   | .binaryLhs k => pure ((stack, .binaryRhs k expr), st)
   | .binaryRhs k lhs op =>
@@ -770,7 +771,7 @@ def parsedStep (fuel : Nat) (expr : Expr) (item : StackItem) (stack : List Stack
     pure ((stack, .parsed (.paren expr (surround startSp endSp))), st)
 
 /-- the `loop { match state {..} }` of `parse_expr` -/
-def exprLoop : Nat → List StackItem → State → PState toks → Res toks Expr
+def exprLoop : Nat → List StackItem → State → PState toks → Res% toks Expr
   | 0, _, _, _ => fault .outOfFuel
   | fuel + 1, stack, state, st =>
     match state, stack with
@@ -792,7 +793,7 @@ def exprLoop : Nat → List StackItem → State → PState toks → Res toks Exp
 end WithPe
 
 /-- `parse_expr` with a fuel bound on loop iterations + recursion depth. -/
-def parseExprF : Nat → PState toks → Res toks Expr
+def parseExprF : Nat → PState toks → Res% toks Expr
   | 0, _ => fault .outOfFuel
   | fuel + 1, st => exprLoop (parseExprF fuel) fuel [] initState st
 
